@@ -36,6 +36,7 @@ def step (p : Lcd.Ppu) (w : List String) : Lcd.Ppu × String :=
   | ["lyc", v] => match byteArg v with
       | some n => apply p (.wLYC n)
       | none => (p, "bad-op")
+  | ["scx", _] => apply p (.wLYC p.lyc)      -- SCX is not part of the timing model: nothing changes
   | ["ly", v] => match byteArg v with
       | some n => apply p (.wLY n)
       | none => (p, "bad-op")
